@@ -394,9 +394,17 @@ def tasks(tier, seed):
     n = 2500 if tier == "quick" else 40000
     for k in range(6):
         ts.append({"name": "random-%d" % k, "fn": "t_random", "kw": {"seed": mix(seed, ID, k), "n": n}})
+    if tier == "thorough":
+        ts.append({"name": "atheris", "fn": "t_atheris", "kw": {"seed": seed, "seconds": 300}})
     for k in range(4):
         ts.append({"name": "textfuzz-%d" % k, "fn": "t_textfuzz", "kw": {"seed": mix(seed, ID, "textfuzz", k), "n": 1200 if tier == "quick" else 20000}})
     return ts
+
+
+def t_atheris(seed, seconds):
+    """coverage-guided campaign (thorough tier): raw text judged by the independent parser / typing checker / evaluator"""
+    from ..fuzz import driver
+    return driver.run_campaigns(seed, seconds, plans=[("rfc-text", "empty"), ("rfc-text", "tests")], death_hook=False)
 
 
 def t_textfuzz(seed, n):
